@@ -101,6 +101,10 @@ const SCHEMA_B: &str = "type Dog { name: String! age: Int }\ntype Query { dog: D
 const QUERY_1: &str = "query Q { dog { name } n }\n";
 const QUERY_2: &str = "query Q { n }\nquery Second { dog { name } }\n";
 const QUERY_3: &str = "query Q { other }\n"; // valid against B only
+// two schemas that define an input type of the same name, recursive in one and flat in the other
+const SCHEMA_C: &str = "input Tree { value: Int child: Tree }\ninput Wrapper { t: Tree }\ntype Dog { name: String }\ntype Query { dog: Dog n: Int }\n";
+const SCHEMA_D: &str = "input Tree { value: Int }\ninput Wrapper { t: Tree }\ntype Dog { name: String }\ntype Query { dog: Dog n: Int }\n";
+const QUERY_W: &str = "query Q($w: Wrapper) { n }\n";
 
 fn oc(s: &str) -> String {
     if s == "panic" || s == "thread-died" {
@@ -117,6 +121,11 @@ pub fn run(outdir: &Path, tier: &str, seed: u64, shards: usize, _replay: Option<
     let _ = std::fs::remove_dir_all(&base);
     std::fs::create_dir_all(base.join("x")).unwrap();
     std::fs::create_dir_all(base.join("y")).unwrap();
+    // a path with `..` behind a symlinked directory: `app/shared/../schema.graphql` is really
+    // `vendor/schema.graphql`, although it reads like `app/schema.graphql`
+    std::fs::create_dir_all(base.join("app")).unwrap();
+    std::fs::create_dir_all(base.join("vendor/queries")).unwrap();
+    let _ = std::os::unix::fs::symlink("../vendor/queries", base.join("app/shared"));
     // (path, content id, text)
     let json_a = {
         use crate::gql::*;
@@ -138,6 +147,12 @@ pub fn run(outdir: &Path, tier: &str, seed: u64, shards: usize, _replay: Option<
         ("broken.graphql", Some("!brokenS"), Some("type {{{ nope".into())),
         ("schema.txt", Some("SA"), Some(SCHEMA_A.into())),         // unsupported extension
         ("missing.graphql", None, None),
+        ("app/schema.graphql", Some("SA"), Some(SCHEMA_A.into())),
+        ("vendor/schema.graphql", Some("SB"), Some(SCHEMA_B.into())),
+        ("app/shared/../schema.graphql", Some("SB"), None),          // resolves through the symlink
+        ("c.graphql", Some("SC"), Some(SCHEMA_C.into())),
+        ("d.graphql", Some("SD"), Some(SCHEMA_D.into())),
+        ("qw.graphql", Some("QW"), Some(QUERY_W.into())),
         ("q1.graphql", Some("Q1"), Some(QUERY_1.into())),
         ("x/q.graphql", Some("Q1"), Some(QUERY_1.into())),
         ("y/q.graphql", Some("Q2"), Some(QUERY_2.into())),
@@ -150,23 +165,43 @@ pub fn run(outdir: &Path, tier: &str, seed: u64, shards: usize, _replay: Option<
             std::fs::write(base.join(p), t).unwrap();
         }
     }
-    let schemas = ["a.graphql", "x/schema.graphql", "y/schema.graphql", "a.gql", "a.json", "broken.graphql", "schema.txt", "missing.graphql"];
-    let queries = ["q1.graphql", "x/q.graphql", "y/q.graphql", "q3.graphql", "brokenq.graphql", "missingq.graphql"];
+    let schemas = ["a.graphql", "x/schema.graphql", "y/schema.graphql", "a.gql", "a.json", "app/schema.graphql", "app/shared/../schema.graphql", "c.graphql", "d.graphql", "broken.graphql", "schema.txt", "missing.graphql"];
+    let queries = ["q1.graphql", "x/q.graphql", "y/q.graphql", "q3.graphql", "qw.graphql", "brokenq.graphql", "missingq.graphql"];
     let optids = ["default", "rust", "other", "named"];
     let nhist = if tier == "thorough" { 300 } else { 24 };
     let mut cases = vec![];
     let mut dist = std::collections::BTreeMap::<String, usize>::new();
     let files_coq = coq::list(&files, |(p, id, _)| format!("({}, {})", coq::s(p), coq::opt(id, |x| coq::s(x))));
-    for hi in 0..nhist {
-        let nthreads = [1usize, 2, 2, 4, 8, 16][rng.below(6)];
+    // directed histories first (the regression corpus): each is a known way for one call to leak
+    // into another
+    let mk = |q: &str, s: &str, o: &str| Call { q: q.into(), s: s.into(), o: o.into() };
+    let mut directed: Vec<Vec<Vec<Call>>> = vec![
+        vec![vec![mk("missingq.graphql", "a.graphql", "default"), mk("q1.graphql", "a.graphql", "default")]],           // failed load, then a good call
+        vec![vec![mk("q1.graphql", "broken.graphql", "default"), mk("q1.graphql", "a.graphql", "default"), mk("q1.graphql", "schema.txt", "default"), mk("q1.graphql", "a.graphql", "default")]],
+        vec![vec![mk("q1.graphql", "x/schema.graphql", "default"), mk("q1.graphql", "y/schema.graphql", "default"), mk("q1.graphql", "x/schema.graphql", "default")]], // same base name
+        vec![vec![mk("q1.graphql", "app/shared/../schema.graphql", "default"), mk("q1.graphql", "app/schema.graphql", "default")]],
+        vec![vec![mk("q1.graphql", "app/schema.graphql", "default"), mk("q1.graphql", "app/shared/../schema.graphql", "default")]],
+        vec![vec![mk("qw.graphql", "c.graphql", "default"), mk("qw.graphql", "d.graphql", "default"), mk("qw.graphql", "c.graphql", "default")]], // same-named input type
+        vec![vec![mk("qw.graphql", "d.graphql", "default"), mk("qw.graphql", "c.graphql", "default"), mk("qw.graphql", "d.graphql", "default")]],
+        vec![vec![mk("x/q.graphql", "a.graphql", "default"), mk("y/q.graphql", "a.graphql", "default"), mk("x/q.graphql", "a.json", "rust")]],
+    ];
+    // the same, split over two threads
+    let two: Vec<Vec<Vec<Call>>> = directed.iter().map(|h| { let all = h[0].clone(); let mid = all.len() / 2; vec![all[..mid].to_vec(), all[mid..].to_vec()] }).collect();
+    directed.extend(two);
+    let ndirected = directed.len();
+    for hi in 0..(nhist + ndirected) {
+        let nthreads = if hi < ndirected { directed[hi].len() } else { [1usize, 2, 2, 4, 8, 16][rng.below(6)] };
         let mut threads = vec![];
-        for _ in 0..nthreads {
+        if hi < ndirected {
+            threads = directed[hi].clone();
+        }
+        for _ in 0..(if hi < ndirected { 0 } else { nthreads }) {
             let n = 1 + rng.below(if nthreads > 4 { 4 } else { 8 });
             let mut calls = vec![];
             for _ in 0..n {
                 // mostly-valid calls, with failing ones mixed in
-                let s = if rng.chance(3, 4) { schemas[rng.below(5)] } else { schemas[5 + rng.below(3)] };
-                let q = if rng.chance(3, 4) { queries[rng.below(4)] } else { queries[4 + rng.below(2)] };
+                let s = if rng.chance(4, 5) { schemas[rng.below(9)] } else { schemas[9 + rng.below(3)] };
+                let q = if rng.chance(4, 5) { queries[rng.below(5)] } else { queries[5 + rng.below(2)] };
                 calls.push(Call { q: q.to_string(), s: s.to_string(), o: optids[rng.below(optids.len())].to_string() });
             }
             threads.push(calls);
